@@ -247,6 +247,43 @@ func runBusStress(rng *rand.Rand, idx int, tier string) Case {
 	if eb.HandlerCount[stP](bus) != 4 {
 		probeBad += 10
 	}
+	// ---- phase 4: a freshly subscribed synchronous Sequential handler whose first events arrive from several goroutines
+	// at once must not overlap itself ----
+	type stS struct{ R int }
+	seqRounds := 60
+	if tier == "thorough" {
+		seqRounds = 400
+	}
+	freshOverlap := 0
+	for r := 0; r < seqRounds; r++ {
+		var inside, over atomic.Int32
+		hfn := func(e stS) {
+			if inside.Add(1) != 1 {
+				over.Add(1)
+			}
+			for k := 0; k < 20; k++ {
+				runtime.Gosched()
+			}
+			inside.Add(-1)
+		}
+		eb.Subscribe(bus, hfn, eb.Sequential())
+		gate := make(chan struct{})
+		var pw sync.WaitGroup
+		for g := 0; g < 4; g++ {
+			pw.Add(1)
+			go func() {
+				defer pw.Done()
+				<-gate
+				guard(func() { eb.Publish(bus, stS{r}) })
+			}()
+		}
+		close(gate)
+		pw.Wait()
+		if over.Load() != 0 {
+			freshOverlap++
+		}
+		eb.Clear[stS](bus)
+	}
 	// ---- observations ----
 	var stT []T
 	for _, h := range stable {
@@ -278,7 +315,7 @@ func runBusStress(rng *rand.Rand, idx int, tier string) Case {
 	sort.Strings(tags)
 	return Case{Input: Tup(Nat(nst), Nat(nonce), Nat(G*M), B(withStore)),
 		Obs: C("Build_stobs", L(stT...), L(onceT...), Nat(eb.HandlerCount[stE](bus)), Nat(records), Nat(disorder), Nat(int(escaped.Load())),
-			Nat(onceLost), Nat(onceStale), Nat(deadSeen), Nat(probeBad)),
+			Nat(onceLost), Nat(onceStale), Nat(deadSeen), Nat(probeBad), Nat(freshOverlap)),
 		Tags:       tags,
 		Nontrivial: true}
 }
